@@ -368,7 +368,7 @@ shared!(
     "optu8" => Option<u8>, "optstring" => Option<String>, "optvecu16" => Option<Vec<u16>>,
     "tup1" => (u8,), "tup2" => (u8, String), "tup3" => (i16, bool, Option<u8>), "tup4" => (u64, String, f32, ()),
     "tup16" => (u8, u8, u8, u8, u8, u8, u8, u8, u8, u8, u8, u8, u8, u8, u8, u8),
-    "arr0u8" => [u8; 0], "arr1string" => [String; 1], "arr3i32" => [i32; 3], "arr16u8" => [u8; 16], "arr32u8" => [u8; 32],
+    "arr0u8" => [u8; 0], "arr1string" => [String; 1], "arr3i32" => [i32; 3], "arr23u16" => [u16; 23], "arr24bool" => [bool; 24], "arr25i8" => [i8; 25], "arr16u8" => [u8; 16], "arr32u8" => [u8; 32],
     "vecu8" => Vec<u8>, "vecstring" => Vec<String>, "vecvecu16" => Vec<Vec<u16>>, "vecoptbool" => Vec<Option<bool>>, "vecdequei32" => VecDeque<i32>, "linkedlistu64" => LinkedList<u64>,
     "btreesetu16" => BTreeSet<u16>, "binaryheapu8" => BinaryHeap<u8>, "hashsetstring" => HashSet<String>, "hashseti32" => HashSet<i32>,
     "btreemapu8string" => BTreeMap<u8, String>, "btreemapstringvecu8" => BTreeMap<String, Vec<u8>>, "hashmapu16bool" => HashMap<u16, bool>, "hashmapstringi64" => HashMap<String, i64>,
